@@ -16,8 +16,8 @@ TIERS = {
     'C04': T(200000, 30, 5000000, 600),
     'C05': T(200000, 30, 5000000, 600),
     'C06': T(200000, 30, 5000000, 600),
-    'C07': T(200000, 40, 5000000, 800),
-    'C08': T(200000, 35, 5000000, 700),
+    'C07': T(200000, 30, 5000000, 800),
+    'C08': T(200000, 30, 5000000, 700),
     'C09': T(200000, 40, 5000000, 800),
     'C10': T(200000, 25, 5000000, 500, quick={'secondary': {'tsan': {'count': 200000, 'seconds': 25, 'seed_offset': 500001}}},
              thorough={'secondary': {'tsan': {'count': 5000000, 'seconds': 500, 'seed_offset': 500001}}}),
